@@ -52,11 +52,19 @@ func ToDateTime64(t time.Time, p Precision) DateTime64 {
 	if t.IsZero() {
 		return 0
 	}
-	return DateTime64(t.UnixNano() / p.Scale())
+	// Not using UnixNano, it is not defined for the whole DateTime64 range.
+	scale := p.Scale()
+	return DateTime64(t.Unix()*(1e9/scale) + int64(t.Nanosecond())/scale)
 }
 
 // Time returns DateTime64 as time.Time.
 func (d DateTime64) Time(p Precision) time.Time {
-	nsec := int64(d) * p.Scale()
-	return time.Unix(nsec/1e9, nsec%1e9)
+	// Not converting to nanoseconds, result can overflow int64.
+	var (
+		scale = p.Scale()
+		ticks = int64(1e9) / scale // ticks per second
+		sec   = int64(d) / ticks
+		rem   = int64(d) % ticks
+	)
+	return time.Unix(sec, rem*scale)
 }
